@@ -336,7 +336,7 @@ func judgeMsg(c c19case, limit int, msg string, reported bool, pan any) (key, de
 
 // pseudo-random but deterministic line content in which every window of >= 6 bytes is (almost surely) unique
 func asciiLine(n int, salt int) string {
-	const al = "abcdefghijklmnopqrstuvwxyzABCDEFGHIJKLMNOPQRSTUVWXYZ0123456789_+-*/=<>(){}[];:,"
+	const al = "abcdefghijklmnopqrstuvwxyzABCDEFGHIJKLMNOPQRSTUVWXYZ0123456789_+-*/=<>(){}[];:,%%d!\\"
 	b := make([]byte, n)
 	x := uint32(salt*2654435761 + 12345)
 	for i := range b {
